@@ -20,8 +20,9 @@
      removed a full eviction batch (`SYNC_EVICTION_BATCH_SIZE` = 500 entries), measured against
      the snapshot right before the `sync` or, without one, against the number of inserts.
      `C04_sync_after_sync` is the same at the level of states.
-  NOT provable: `oracleC04 .sync` of `Spec/Oracles.lean` (tolerance "more than 400 entries
-  left"): it is `false` on a history of the current code, see `C04 old oracle` below.
+  NOT provable was the first version of `oracleC04 .sync` (tolerance "more than 400 entries
+  left"): it is `false` on a history of the current code, see `C04 old oracle` below. The
+  oracle in `Spec/Oracles.lean` is the corrected one (`boundC04SyncGo`), proved here.
 -/
 import MiniMoka.Lemmas.SyncCounters
 import MiniMoka.Props.C11
@@ -337,23 +338,23 @@ one heavy entry after). -/
 example : Spec.boundC04SyncGo 3 501 [(.sync, .ok), (.snap, .snap heavySnap)] = true := by
   decide
 
-/-! `C04 old oracle`: `Spec.oracleC04 .sync` is false on the current code.  Capacity 10,
-weigher = value.  501 (or 850) keys of weight 0 are all admitted; key 0 is then updated to
-weight 1000000.  The next maintenance run must evict 999990: the LRU loop evicts its batch of
-500 weight-0 entries and stops; the heavy entry (most recently used) stays.  The quiescent
-snapshot after `sync` shows 1 (or 350) entries, at most 400, weighing 1000000 > 10: the old
-tolerance `entries.length > 400` does not apply.
+/-! `C04 old oracle`: the first version of `Spec.oracleC04 .sync` (at a quiescent snapshot after
+`sync`: `entries.length > 400 || snapWeight ≤ cap`) was false on the current code. Capacity 10,
+weigher = value, eviction batch 500 (the generated constant at the time). 501 keys of weight 0
+are all admitted; key 0 is then updated to weight 1000000. The next maintenance run must evict
+999990: the LRU loop evicts its batch of 500 weight-0 entries and stops; the heavy entry (most
+recently used) stays. The quiescent snapshot after `sync` shows 1 entry, at most 400, weighing
+1000000 > 10: the old tolerance did not apply, the corrected oracle accepts ("a full batch was
+worked off").
 
     def p : Params := { cap := some 10, hasWeigher := true, w := fun _ v => v }
     def h (n : Nat) : List Op :=
       (List.range n).map (fun k => Op.ins k 0) ++ [.sync, .snap, .ins 0 1000000, .sync, .snap]
-    #eval Spec.oracleC04  .sync p.cap (Sync.trace p (h 501))   -- false   (also for h 850)
-    #eval Spec.oracleC04 .sync p.cap (Sync.trace p (h 501))   -- true    (also for h 850)
+    -- old oracle on `Sync.trace p (h 501)`: false;  corrected oracle (`Spec.oracleC04`): true
 
-`theorem : Spec.oracleC04 .sync p.cap (Sync.trace p (h 501)) = false := by decide +kernel`
-is accepted by the kernel (checked once, 2026-09-24) but takes about 7 minutes, and no smaller
-witness exists (by `C04_sync_after_sync` a map of at most 500 entries never keeps excess
-after `sync`), so it is not part of the build. -/
+The kernel accepted `decide +kernel` for the old oracle's `false` once (2026-09-24, about 7
+minutes); no smaller witness exists (by `C04_sync_after_sync` a map of at most one batch never
+keeps excess after `sync`), so it is not part of the build. -/
 
 /-! ### the repaired defects, with their switches on -/
 
